@@ -7,6 +7,19 @@ Open Scope N_scope.
 
 Definition is_cmd (c : ustr) (s : string) : bool := ustr_eqb c (u s).
 
+(* all code points in [lo, lo+n) whose encoding is not the character itself, with the encoding;
+   and whether decode (encode [c]) = [c] held for every code point of the range *)
+Fixpoint encode_sweep_aux (lo : N) (n : nat) (acc : list sx) (ok : bool) : list sx * bool :=
+  match n with
+  | O => (rev acc, ok)
+  | S n' =>
+      let e := encode_path [lo] in
+      let ok' := ok && match decode_path e with Ok [c] => c =? lo | _ => false end in
+      encode_sweep_aux (lo + 1) n' (if ustr_eqb e [lo] then acc else SL [sN lo; SS e] :: acc) ok'
+  end.
+Definition encode_sweep (lo : N) (n : nat) : sx :=
+  let '(l, ok) := encode_sweep_aux lo n [] true in SL [SL l; sbool ok].
+
 Definition run_text (c : ustr) (args : list sx) : option sx :=
   match args with
   | [a] =>
@@ -45,6 +58,7 @@ Definition run_text (c : ustr) (args : list sx) : option sx :=
       else if is_cmd c "entry_ltb" then Some (sbool (entry_ltb (dec_entry a) (dec_entry b)))
       else if is_cmd c "ustr_ltb" then Some (sbool (ustr_ltb (x_str a) (x_str b)))
       else if is_cmd c "path_join" then Some (SS (path_join (x_str a) (x_str b)))
+      else if is_cmd c "encode_sweep" then Some (encode_sweep (x_N a) (x_nat b))
       else None
   | _ => None
   end.
